@@ -24,7 +24,7 @@ VERIF = Path(__file__).resolve().parent.parent
 REPO = Path(os.environ.get("VP_REPO", "/repo"))
 CONTRACTS = VERIF / "contracts"
 NCPU = os.cpu_count() or 4
-MEM_LIMIT_GB = int(os.environ.get("VP_MEM_GB", "14"))
+MEM_LIMIT_GB = int(os.environ.get("VP_MEM_GB", "32"))
 
 TRUSTED_BASE = [
     "rustc (Kani's pinned nightly; Verus' pinned 1.98.1), Kani 0.68 MIR->GOTO translation and its models of core (memcpy, slices, fmt)",
@@ -176,7 +176,7 @@ class Scratch:
                 if fpath.name not in ("lib.rs", "mod.rs", "main.rs"):
                     # child of a non-mod-rs file: path attribute is relative to the file's directory
                     pass
-                shutil.copy(m.path, dst)
+                dst.write_text(m.path.read_text().replace("@VERIF@", str(VERIF)) + PLAYBACK_PRELUDE)
                 tails.setdefault(m.file, []).append(
                     f'#[cfg(kani)] #[allow(unsafe_code, dead_code, unused_imports, unused, missing_docs, clippy::all)] #[path = "{dst}"] pub(crate) mod {m.name};')
                 for a in m.attrs:
@@ -240,6 +240,12 @@ def _limits():
     except Exception:
         pass
 
+
+# concrete-playback tests generated by Kani use Vec / vec!, the crates are no_std
+PLAYBACK_PRELUDE = """
+#[cfg(test)] extern crate std;
+#[cfg(test)] #[allow(unused_imports)] use std::{vec, vec::Vec};
+"""
 
 RESULT_RE = re.compile(r"^Thread (\d+): Checking harness (\S+?)\.\.\.")
 
